@@ -169,6 +169,7 @@ fn body(p: &P) -> Result<(), String> {
         ths.push(std::thread::spawn(move || {
             for (k, sz) in seq.iter().enumerate() {
                 let data = payload(i as u32, k as u32, sz.len());
+                e1::inproc_point();
                 let begin = CLOCK.fetch_add(1, Ordering::SeqCst);
                 let r = h.send(data);
                 let ret = CLOCK.fetch_add(1, Ordering::SeqCst);
@@ -178,6 +179,7 @@ fn body(p: &P) -> Result<(), String> {
         }));
     }
     let mut got: Vec<(u32, u32)> = Vec::new();
+    e1::inproc_point();
     match p.mode {
         RecvMode::Blocking | RecvMode::Delayed => {
             if p.mode == RecvMode::Delayed {
@@ -267,6 +269,8 @@ pub fn scenarios(tier: Tier) -> Vec<Scenario> {
         let mut cfg = sched_cfg();
         // wide scenarios (more than three senders): every non-default choice counts as a deviation
         cfg.strict_deviations = p.seqs.len() > 3;
+        // in-process build: a blocking receiver is also explored up to parking (not the polling ones)
+        cfg.yield_alts = cfg!(feature = "inproc") && !matches!(p.mode, RecvMode::Polling | RecvMode::TimedPolling);
         Scenario::new(name, cfg, bound, move || body(&p))
     }).collect()
 }
@@ -858,11 +862,20 @@ fn proc_cases(tier: Tier) -> Vec<ProcCase> {
 }
 
 pub fn run(tier: Tier, part_only: bool) -> i32 {
-    let _ = part_only;
-    let mut rep = Report::new("C02", tier, "model_checking");
+    super::run_with_inproc("C02", tier, part_only, "model_checking", &run_all)
+}
+
+fn run_all(rep: &mut Report, tier: Tier) {
     let scs = scenarios(tier);
     let budget = if tier.is_quick() { 35.0 } else { 3000.0 };
-    let tot = e1::run_scenarios(&mut rep, &scs, &e1::strict_judge, budget);
+    let tot = e1::run_scenarios(rep, &scs, &e1::strict_judge, budget);
+    if cfg!(feature = "inproc") {
+        // in-process channels: threads only (no packets, no processes): the schedules above are all
+        rep.set("deviation_bound_max", json!(tot.max_bound));
+        rep.set("evaluations", json!(tot.execs));
+        rep.set("distinct_nontrivial", json!(tot.with_switch));
+        return;
+    }
     // forked processes
     let pcs = proc_cases(tier);
     let mut nproc = 0u64;
@@ -895,7 +908,7 @@ pub fn run(tier: Tier, part_only: bool) -> i32 {
     rep.sample(json!({"forked_process_packet_interleaving": gcs[gcs.len() / 2]}));
     rep.set("forked_process_cases", json!(nproc));
     rep.sample(json!({"forked_process_case": pcs[pcs.len() / 2]}));
-    let e3s = e3(tier, &mut rep);
+    let e3s = e3(tier, rep);
     for v in &e3s.model_violations {
         rep.fail(&format!("the packet-protocol model itself violates its invariants: {}", v), json!({"engine": "E3-model"}));
     }
@@ -919,10 +932,10 @@ pub fn run(tier: Tier, part_only: bool) -> i32 {
     rep.assume("the Linux kernel running here provides per-socket FIFO order and packet boundaries on SOCK_SEQPACKET (exercised, not modelled)");
     let _ = emit_part;
     let _ = Part::new;
-    rep.finish()
 }
 
 pub fn replay(tier: Tier, v: &Value) -> i32 {
+    let v = if v.get("variant").is_some() { &v["case"] } else { v };
     if v["engine"] == "E2-gate" {
         let Ok(c) = serde_json::from_value::<GateCase>(v["case"].clone()) else { return 2 };
         let cfg = Cfg { fake_sndbuf: Some(4608), ..Default::default() };
